@@ -56,6 +56,9 @@ def collect() -> dict:
     from openpectus.lang.exec import units as U
     ureg = U.ureg
     exact = pint.UnitRegistry(non_int_type=Fraction)
+    # the string preprocessors units.py installs (e.g. for 'mol%') apply to the exact registry as well; pint's own
+    # ones ('%' -> ' percent ' …) are idempotent, so running them twice is harmless
+    exact.preprocessors = list(U.ureg.preprocessors) + list(exact.preprocessors)
     for d in _defines_from_source(U):
         exact.define(d)
 
